@@ -289,4 +289,38 @@ def formatRocket (n : Int) (decimal : Int) : Res :=
     ASCII string is outside the model.) -/
 def evmValue (v : Int) : Res := StrToBigInt (BigIntToStr v)
 
+/-! ### ERC-20 bound token balances (`src/storage/account/accountdb_tuntun.go`)
+
+For a token name bound to an ERC-20 contract with `d` decimals the contract's storage
+slot holds the balance in token units (`bal : Nat`, stored as `big.Int.Bytes()`, i.e. the
+absolute value); the ledger API speaks 18-decimal integers. `none` = the Go code would
+dereference the nil pointer returned by a failed `FormatDecimalForERC20`. -/
+
+/-- `SetFT(addr, name, balance)` on a bound token: new slot content. -/
+def ftSet (d : Int) (n : Int) : Option Nat :=
+  match formatERC20 n d with
+  | .ok v => some v.natAbs
+  | _ => none
+
+/-- `GetFT(addr, name)` on a bound token. -/
+def ftGet (d : Int) (bal : Nat) : Res := formatRocket (bal : Int) d
+
+/-- `AddFT`: `remain.Add(remain, FormatDecimalForERC20(balance, d))`, stored via `Bytes()`. -/
+def ftAdd (d : Int) (bal : Nat) (n : Int) : Option Nat :=
+  match formatERC20 n d with
+  | .ok v => some ((bal : Int) + v).natAbs
+  | _ => none
+
+/-- `SubFT`: `(false, remain)` (in token units!) when `remain < value`; otherwise the slot
+    becomes `remain - value` and the result is that, re-scaled to 18 decimals. Returns
+    (success, new slot content, returned integer or nil). -/
+def ftSub (d : Int) (bal : Nat) (n : Int) : Option (Bool × Nat × Res) :=
+  match formatERC20 n d with
+  | .ok v =>
+    if (bal : Int) < v then some (false, bal, .ok (bal : Int))
+    else
+      let r := (bal : Int) - v
+      some (true, r.natAbs, formatRocket r d)
+  | _ => none
+
 end Rangers.Decimal
